@@ -28,6 +28,7 @@ ASSUMPTIONS = [
 ]
 SHARDS = {"quick": 4, "thorough": 16}
 MIN_REACH = {
+    "silent_estimates_in_a_process_without_stderr": {"quick": 25, "thorough": 400},
     "contract_evals_rs_update": {"quick": 80000, "thorough": 3000000},
     "contract_evals_rc_update": {"quick": 30000, "thorough": 500000},
     "estimate_runs": {"quick": 300, "thorough": 10000},
@@ -334,13 +335,25 @@ def run_case(ctx, case):
         kw = dict(rtol=case["rtol"], tol_scale=case["tol_scale"], min_samples=case["min_samples"],
                   max_samples=case["max_samples"], get=case["get"], verbosity=case["verbosity"])
         out, err = None, None
+        no_stderr = case["verbosity"] == 0 and case["sseed"] % 5 == 2
         try:
             with quiet():
-                if case["sseed"] % 2:
-                    out = xyzpy.estimate_from_repeats(fn, **kw)
-                else:
-                    out = xyzpy.estimate_from_repeats(fn, 2.0, **kw) if case["sseed"] % 4 == 0 else \
-                        xyzpy.estimate_from_repeats(fn, scale=0.5, **kw)
+                if no_stderr:
+                    # the program has no usable stderr (started with fd 2 closed, a windowed / daemon launcher): a silent
+                    # estimate needs none
+                    import sys
+                    saved_err = sys.stderr
+                    sys.stderr = None
+                    ctx.count("silent_estimates_in_a_process_without_stderr")
+                try:
+                    if case["sseed"] % 2:
+                        out = xyzpy.estimate_from_repeats(fn, **kw)
+                    else:
+                        out = xyzpy.estimate_from_repeats(fn, 2.0, **kw) if case["sseed"] % 4 == 0 else \
+                            xyzpy.estimate_from_repeats(fn, scale=0.5, **kw)
+                finally:
+                    if no_stderr:
+                        sys.stderr = saved_err
         except Exception as e:
             err = e
         ctx.count("estimate_runs")
